@@ -27,7 +27,7 @@ TEMPLATE = 'DEFAULT_RUNTIME_STATE'
 
 
 def run(ctx):
-    for fn in (r1_template, r2_fresh_state, r3_accumulators_reset, r4_namespace_cleared, r5_module_dict, r6_shared_config, r7_warning_filters_scoped):
+    for fn in (r1_template, r2_fresh_state, r3_accumulators_reset, r4_namespace_cleared, r5_module_dict, r6_shared_config, r7_warning_filters_scoped, r8_namespace_object_is_private):
         ctx.rep.rule(fn, ctx)
 
 
@@ -423,12 +423,39 @@ def r7_warning_filters_scoped(ctx):
     run_as(ctx, c12.r4_warnings, 'C12.R4', 'C11.R7')
 
 
+def r8_namespace_object_is_private(ctx):
+    """WHO-MAY: the dict a doctest executes in is created by DocTest.__init__ and belongs to that doctest.  Nothing else in the package binds the
+    `global_namespace` attribute of a doctest to another object (seeding it goes through .update / item assignment): a dict handed to several
+    doctests would carry names from one into the next and be wiped by the first one that finishes"""
+    rep = ctx.rep
+    owner = 'xdoctest.doctest_example.DocTest.__init__'
+    stores = []
+    for mod in all_scopes(ctx):
+        for n in ast.walk(mod.tree):
+            if isinstance(n, (ast.Assign, ast.AugAssign, ast.AnnAssign)):
+                tg = n.targets if isinstance(n, ast.Assign) else [n.target]
+                for t in tg:
+                    for tt in ([t] if not isinstance(t, (ast.Tuple, ast.List)) else t.elts):
+                        if isinstance(tt, ast.Attribute) and tt.attr == 'global_namespace':
+                            stores.append((mod, owner_func(ctx, mod, n), n))
+    rep.floor('C11.R8', 'bindings of the global_namespace attribute', len(stores), 1)
+    for (mod, f, n) in stores:
+        q = f.qualname if f is not None else mod.name
+        v = getattr(n, 'value', None)
+        ok = q == owner and is_empty_container(v)
+        rep.ob('C11.R8', ctx.mloc(mod, n), ctx.src(n, 80), ok,
+               'a fresh dict per DocTest object' if ok else
+               'the namespace of a doctest is rebound to another object outside its constructor: doctests that are given the same dict share every name one of them defines, '
+               'and the end-of-run clear() of one empties it for the others', anchor=q)
+
+
 # ---------------------------------------------------------------------------
 from ..selftest import fire, silent      # noqa: E402
 
 DE = 'xdoctest/doctest_example.py'
 DI = 'xdoctest/directive.py'
 VARIANTS = [
+    fire('textfile-doctests-share-one-namespace', 'C11.R8', ('xdoctest/plugin.py', "            dtest.global_namespace.update(global_namespace)\n", "            dtest.global_namespace = global_namespace\n")),
     fire('template-shallow-copy', 'C11.R1', (DI, "        self._global_state = copy.deepcopy(DEFAULT_RUNTIME_STATE)\n", "        self._global_state = DEFAULT_RUNTIME_STATE.copy()\n")),
     fire('template-dict-copy', 'C11.R1', (DI, "        self._global_state = copy.deepcopy(DEFAULT_RUNTIME_STATE)\n", "        self._global_state = dict(DEFAULT_RUNTIME_STATE)\n")),
     fire('template-aliased', 'C11.R1', (DI, "        self._global_state = copy.deepcopy(DEFAULT_RUNTIME_STATE)\n", "        self._global_state = DEFAULT_RUNTIME_STATE\n")),
